@@ -338,6 +338,11 @@ class EditStream(HTMLHandlerBase):
         for name in ['title', 'marlin_la_url', 'playready_la_url']:
             if not isinstance(params.get(name), str):
                 return flask.make_response(f'Field "{name}" is missing', 400)
+        try:
+            self.check_license_url(params['marlin_la_url'])
+            self.check_license_url(params['playready_la_url'])
+        except ValueError as err:
+            return flask.make_response(html.escape(str(err)), 400)
         current_stream.title = params['title']
         if models.MediaFile.count(stream=current_stream) == 0:
             if not isinstance(params.get('directory'), str):
